@@ -343,10 +343,26 @@ Proof.
   clear -Hw. revert n. induction Hw as [|x w Hx Hw IH]; intros n; destruct n; cbn; constructor; try assumption. apply IH.
 Qed.
 
+Lemma to_upper_b_nonlower b : is_lower b = false -> to_upper_b b = b.
+Proof. intros H. unfold to_upper_b. rewrite H. reflexivity. Qed.
+Lemma digit_not_lower b : is_digit b = true -> is_lower b = false.
+Proof. intros H. digit_b b H; reflexivity. Qed.
+Lemma to_upper_intlike v : intlike v -> to_upper v = v.
+Proof.
+  destruct v as [|b tl]; [reflexivity|]. intros [Hb Ht]. cbn [to_upper map]. f_equal.
+  - apply to_upper_b_nonlower. destruct Hb as [Hb|Hb]; [apply digit_not_lower; exact Hb|].
+    unfold is_sgn in Hb. destruct b; try discriminate Hb; reflexivity.
+  - induction Ht as [|x w Hx Hw IH]; [reflexivity|]. cbn [map]. f_equal; [|exact IH].
+    apply to_upper_b_nonlower. apply digit_not_lower. exact Hx.
+Qed.
+
 Lemma parse_one_int now cf text : int_safe (cf_elems cf) = true -> intlike text -> parse_one now cf text = None.
 Proof.
-  intros Hs Hi. unfold parse_one. destruct (rx_find (cf_rx cf) text) as [m|] eqn:E; [|reflexivity].
-  destruct (rx_find_sub _ _ _ E) as (i & n & ->). rewrite int_safe_fails; [reflexivity|exact Hs|apply intlike_sub; exact Hi].
+  intros Hs Hi. unfold parse_one, parse_one_v, go_parse_retry. destruct (rx_find (cf_rx cf) text) as [m|] eqn:E; [|reflexivity].
+  destruct (rx_find_sub _ _ _ E) as (i & n & ->).
+  rewrite int_safe_fails; [|exact Hs|apply intlike_sub; exact Hi].
+  rewrite to_upper_intlike by (apply intlike_sub; exact Hi).
+  rewrite int_safe_fails; [destruct (code_ampm_retry && has_pm (cf_elems cf)); reflexivity|exact Hs|apply intlike_sub; exact Hi].
 Qed.
 
 Lemma parse_all_int now text : intlike text -> forall fs i,
